@@ -20,7 +20,9 @@ DESIGN_REF = 'DESIGN.md section 4, C16'
 SINGLE_OUTCOME_OK = False
 
 INT_ALPHA = [0, 1, -1, 2, -2, 3]                                # simplest first
-FLT_ALPHA = [0.0, 0.1, 0.2, 0.30000000000000004, 0.5]
+FLT_ALPHA = [0.0, 0.1, 0.2, 0.30000000000000004, 0.5, 0.3000000001]   # the last: off a regular run by 3e-10 relative, far above rounding
+_B = 2 ** 53                                                     # integers beyond the exactly-spaced double range
+BIG_ALPHA = [_B, _B + 4, _B + 8, _B + 11, _B + 12, -_B, -_B - 4, -_B - 8, -_B - 11]
 FLT_DELTA = 0.05                                                # query offset for floats (ints use 1)
 GAPS = [10, 20]
 FRAMES = [1, 2, 3]
@@ -74,6 +76,7 @@ def shards(tier):
     out = [{'kind': 'root'}]
     out += [{'kind': 'int', 'prefix': list(t)} for t in itertools.product(INT_ALPHA, repeat=p)]
     out += [{'kind': 'float', 'prefix': list(t)} for t in itertools.product(FLT_ALPHA, repeat=p)]
+    out += [{'kind': 'bigint', 'prefix': [a, b]} for a in BIG_ALPHA for b in BIG_ALPHA]
     for n in range(1, _nrec(tier) + 1):
         if n <= 2 or tier == 'quick':
             out += [{'kind': 'type01', 'n': n, 'head': [f]} for f in FRAMES]
@@ -150,6 +153,12 @@ def check_rle(vals, num):
         if not ok:
             flag('rle_add_raise', 'add(%r) after %r raised %s' % (v, vals[:k], _exc(err)), exc=type(err).__name__)
             return bad, ('add_raise', k), None
+        # queries interleaved with the adds on the same object: anything a query remembers must not outlive the next add
+        ok, got = _call(lambda: (obj.num_values(), obj.value(k), obj.last()))
+        if not ok:
+            flag('rle_query_between_adds_raise', 'after %d adds a query raised %s' % (k + 1, _exc(got)), exc=type(got).__name__)
+        elif got[0] != k + 1 or not same(got[1], v) or not same(got[2], v):
+            flag('rle_query_between_adds_wrong', 'after adds %r: (num_values, value(%d), last()) = %r' % (vals[:k + 1], k, got))
     canon = _canon(obj)
     zero_runs = any(s == 0 and r > 0 for _, s, r in canon)
     out = [canon]
@@ -325,11 +334,23 @@ def check_type01(recs):
         bad.append((sig, 'records %r: %s' % (recs, msg)))
 
     obj = LRle.RLEType01('FEET')
+    so_far = []
     for k, (p, f, x) in enumerate(recs):
         ok, err = _call(obj.add, p, f, x)
         if not ok:
             flag('type01_add_raise', 'add%r raised %s' % ((p, f, x), _exc(err)), exc=type(err).__name__)
             return bad, ('add_raise', k)
+        # the index is queried while it is being built (the indexer and its callers do that): every frame added so far
+        so_far += [(p, j) for j in range(f)]
+        for fnum in (0, len(so_far) - f, len(so_far) - 1):
+            ok, got = _call(obj.tellLrForFrame, fnum)
+            if not ok or tuple(got) != so_far[fnum]:
+                flag('type01_tell_between_adds', 'after %d records tellLrForFrame(%d) gives %r, expected %r'
+                     % (k + 1, fnum, _exc(got) if not ok else got, so_far[fnum]))
+                break
+        ok, got = _call(obj.totalFrames)
+        if not ok or got != len(so_far):
+            flag('type01_total_between_adds', 'after %d records totalFrames() gives %r, expected %d' % (k + 1, got, len(so_far)))
     shape = tuple((it.datum, it.stride, it.repeat, it.numFrames) for it in obj.rle_items)
     owner = [(p, k) for p, f, x in recs for k in range(f)]       # frame number -> (record position, offset in record)
     out = [shape]
@@ -416,6 +437,8 @@ def run_shard(shard, tier):
         _search(res, 'int', INT_ALPHA, shard['prefix'], depth, [0, 1, 2, 2])
     elif kind == 'float':
         _search(res, 'float', FLT_ALPHA, shard['prefix'], depth, [0.1, 0.30000000000000004, 0.5])
+    elif kind == 'bigint':
+        _search(res, 'int', BIG_ALPHA, shard['prefix'], 4 if tier == 'quick' else 5, None)
     else:
         n, head = shard['n'], shard['head']
         for rest in itertools.product(FRAMES, repeat=n - len(head)):
